@@ -184,10 +184,17 @@ def family(kind, n):
         for i in range(1, n + 1):
             s += 'def f%d():\n    return f%d() or f%d()\n' % (i, i - 1, i - 1)
         return s + 'f%d()\n' % n
+    if kind == 'pair':             # tuple assignments swapping two names per level
+        return 'a0, b0 = 1, ""\n' + ''.join('a%d, b%d = b%d, a%d\n' % (i, i, i - 1, i - 1) for i in range(1, n + 1)) + 'a%d\n' % n
+    if kind == 'attr_chain':       # class attributes defined through the previous class
+        s = 'class K0:\n    v = 1\n'
+        for i in range(1, n + 1):
+            s += 'class K%d:\n    v = K%d.v\n' % (i, i - 1)
+        return s + 'K%d.v\n' % n
     if kind == 'ring':             # mutual recursion ring of n functions
         s = ''.join('def r%d():\n    return r%d()\n' % (i, (i + 1) % n) for i in range(n))
         return s + 'r0()\n'
     raise ValueError(kind)
 
 
-FAMILIES = ['chain', 'call_chain', 'diamond', 'call_tree', 'ring']
+FAMILIES = ['chain', 'call_chain', 'diamond', 'call_tree', 'ring', 'pair', 'attr_chain']
